@@ -674,21 +674,26 @@ func (g *c04Gen) csvImport() *c04Req {
 	types := []string{"time"}
 	seen := map[string]bool{timeCol: true, "time": true}
 	ncols := rapid.IntRange(1, 4).Draw(t, "ncols")
-	reject := false
+	reject, dup := false, false
 	var sig []string
 	for c := 0; c < ncols; c++ {
 		name := g.colName("col", false)
+		if dup {
+			break
+		}
 		switch rapid.IntRange(0, 14).Draw(t, "hdrfault") {
 		case 0:
-			name = "" // rejected by validateImportHeader
+			// rejected by validateImportHeader; if it were accepted the column would
+			// have to be stored like any other, so the model keeps it
+			name = ""
 			reject = true
 		case 1:
 			if len(header) > 1 {
-				name = header[1] // duplicate
-				reject = true
+				name = header[1] // duplicate: one column would overwrite the other
+				reject, dup = true, true
 			}
 		}
-		if seen[name] && !reject {
+		if seen[name] && !dup {
 			continue
 		}
 		seen[name] = true
@@ -752,7 +757,7 @@ func (g *c04Gen) csvImport() *c04Req {
 	r.Path = "/api/v1/import/csv?" + q.Encode()
 	c04Multipart(r, "data.csv", fb.Bytes())
 	r.Desc = fmt.Sprintf("csv header=%q rows=%d reject-expected=%v", header, n, reject)
-	if reject {
+	if dup {
 		r.Known = false
 	}
 	return r
